@@ -7,6 +7,7 @@ kept / emptied / rejected according to the mode; expansion terminates.
 -/
 import CaddyModel.C18.Lemmas
 import CaddyModel.C18.CostLemmas
+import CaddyModel.C18.Http
 
 namespace CaddyModel.C18
 
@@ -114,6 +115,25 @@ theorem cost_linear_all_modes_full_fails :
 -- the same input is cheap in `ReplaceAll` (non-vacuity of `cost_linear`: 252 visits)
 example : cost (nest 250) (fun _ => none) ⟨[], true, false, false, none⟩ = 252 := by
   set_option maxRecDepth 100000 in decide
+
+/-- **matchers see request-derived values verbatim** (`vars`, `vars_regexp`): what reaches the
+    comparison / the regular expression is the actual value, whatever placeholder syntax it contains. -/
+theorem vars_regexp_sees_value_verbatim (key : Bytes) (r : HttpReq) :
+    varsRegexpCaptured key r = some (varValue key r) := rfl
+
+/-- the `vars` matcher expands only the CONFIGURED value -/
+theorem vars_matcher_compares_verbatim (key mv : Bytes) (r : HttpReq) (b : Bool)
+    (h : varsMatch key mv r = some b) :
+    ∃ e, replaceAll mv [] (httpEnv r) = .ok e ∧ b = (varValue key r == e) := by
+  unfold varsMatch at h
+  cases hr : replaceAll mv [] (httpEnv r) <;> simp [hr, resBytes] at h
+  exact ⟨_, rfl, h.symm⟩
+
+/-- the statement is not vacuous: the code as it was before the fix (one more `ReplaceAll` on the
+    actual value) violates it — header `X-In: {env.VERIF_C18_SECRET}` reached the regexp as the secret. -/
+theorem vars_regexp_old_code_rescans :
+    ∃ (key : Bytes) (r : HttpReq), varsRegexpCapturedOld key r ≠ some (varValue key r) :=
+  ⟨str "{http.request.header.X-In}", ⟨str "{env.VERIF_C18_SECRET}", [], [47], str "S3CR3T", []⟩, by decide⟩
 
 /-! ### non-vacuity: the hypotheses are met by concrete non-trivial inputs (kernel-evaluated) -/
 
